@@ -433,7 +433,7 @@ func (g *layoutGen) hws() string {
 
 var identPool = []string{"a", "B", "x_y", "täsk", "_x", "default", "Ünï", "test", "atask", "tas", "ask", "clean", "世界", "a_task_b", "tasky", "SIZE", "ZIP_FILE", "Zz", "aZ", "abcdefghijklmnopqrstuvwxyz", "ABCDEFGHIJKLMNOPQRSTUVWXYZ", "ǅ", "ßẞ", "Ωmega", "дом", "אב", "aªb"}
 var strPool = []string{"", "x", "a b", "\nlead", "\n", "**/*.go", "ü/é.txt", "f.txt", " ", "./bin/main", "{{x}}", "a,b", "(x)", "#no", "->", "task", ":=", "}", "{", "a\tb", "*.x", " ", "é"}
-var cmdPool = []string{"echo a", "go test ./...", "echo {{.X}}", "a", "echo \"hi\"", "x -> y", "echo a:=b", "ls (a)", "echo {", "mkdir -p {{.BIN}}/x", "echo $HOME", "echo 'q' | wc -l", "task x", "echo a,b", "echo {{.A}}{{.B}}", "b  c", "echo a\tb", "x \t", "echo {{", "e }} f", "echo é{{.X}}", "echo a ", "b \r c", "c  ", "x}}", "#{{y", "écho x", "xy}}", "}}}", "-v"}
+var cmdPool = []string{"date +%Y%m%d", "printf '%s\\n' x", "echo 100%", "echo a", "go test ./...", "echo {{.X}}", "a", "echo \"hi\"", "x -> y", "echo a:=b", "ls (a)", "echo {", "mkdir -p {{.BIN}}/x", "echo $HOME", "echo 'q' | wc -l", "task x", "echo a,b", "echo {{.A}}{{.B}}", "b  c", "echo a\tb", "x \t", "echo {{", "e }} f", "echo é{{.X}}", "echo a ", "b \r c", "c  ", "x}}", "#{{y", "écho x", "xy}}", "}}}", "-v"}
 var commentPool = []string{" voilà", " Å", " хх", " a comment that is rather long: it goes on and on, well past one hundred columns, word after word after word, to the end", " hello", "x", " two words", "", " # inner", " task", "\ttabbed", " trailing  ", "  ", " ü", "task x() {}", " a := \"b\"", " cr\r", "\r", " ---- build ---- #", "##", " fixes issue #", "#", " x #\t"}
 
 func (g *layoutGen) name() string { return identPool[g.rng.Intn(len(identPool))] }
@@ -815,6 +815,23 @@ func genLongLines(w *bufio.Writer) {
 	}
 }
 
+// genContexts: every opening context of the grammar, cut off after one or two more symbols — with NO final newline: what
+// the lexer does when the input ends in the middle of a construct (inside a comment, a header, a body, a string)
+func genContexts(w *bufio.Writer) {
+	ctxs := []string{"", "x := ", "x := \"a", "x := join(", "x := join(\"a\",", "task t", "task t(", "task t(a", "task t(\"a\"", "task t() ", "task t() -> ",
+		"task t() -> (", "task t() -> \"o\" ", "task t() {", "task t() {\n", "task t() {\n\t", "task t() {\n echo a\n", "task t() {\n echo a\n\t", "task t() { echo a ",
+		"# c", "# c\n", "x := \"v\"\n", "task t() {}\n"}
+	syms := append(append([]string{}, alphabet...), "# foo", "\t# foo", "x", "echo {{.A}}", "\r\n", "->", "- ", "é", "\"s\"")
+	for _, c := range ctxs {
+		for _, a := range syms {
+			fmt.Fprintln(w, hx(c+a))
+			for _, b := range syms {
+				fmt.Fprintln(w, hx(c+a+b))
+			}
+		}
+	}
+}
+
 func syntaxGen(w *bufio.Writer, a map[string]string) {
 	prop := a["prop"]
 	thorough := a["tier"] == "thorough"
@@ -847,6 +864,7 @@ func syntaxGen(w *bufio.Writer, a map[string]string) {
 		genRuneSweep(w, false)
 		genByteSweep(w)
 		genLongLines(w)
+		genContexts(w)
 		if thorough {
 			genAlpha(w, 5)
 		} else {
